@@ -360,29 +360,52 @@ func sameChanCell(a, b ssa.Value) bool {
 	return ok1 && ok2 && fieldKey(fa.X.Type(), fa.Field) == fieldKey(fb.X.Type(), fb.Field)
 }
 
-// startsDrainer: calling fn starts a goroutine that keeps receiving from the channel cell (directly or through closures it calls).
+// startsDrainer: calling fn starts, on every path to a return, a goroutine that keeps receiving from the channel cell.
 func startsDrainer(fn *ssa.Function, cell ssa.Value, depth int) bool {
-	if fn == nil || depth > 3 {
+	if fn == nil || depth > 3 || len(fn.Blocks) == 0 {
 		return false
 	}
+	drain := map[*ssa.BasicBlock]bool{}
 	for _, b := range fn.Blocks {
 		for _, ins := range b.Instrs {
 			switch x := ins.(type) {
 			case *ssa.Go:
 				if goDrains(x, cell) {
-					return true
+					drain[b] = true
 				}
 			}
 		}
 	}
-	return false
+	if len(drain) == 0 {
+		return false
+	}
+	// no return may be reachable from the entry around the blocks that start the drainer
+	seen := map[*ssa.BasicBlock]bool{}
+	var dfs func(b *ssa.BasicBlock) bool
+	dfs = func(b *ssa.BasicBlock) bool {
+		if seen[b] || drain[b] {
+			return false
+		}
+		seen[b] = true
+		if len(b.Succs) == 0 {
+			_, isRet := b.Instrs[len(b.Instrs)-1].(*ssa.Return)
+			return isRet
+		}
+		for _, n := range b.Succs {
+			if dfs(n) {
+				return true
+			}
+		}
+		return false
+	}
+	return !dfs(fn.Blocks[0])
 }
 
 var ruleF7 = &Rule{
 	ID:    "F7",
 	Floor: 2,
 	Doc: "a stage that stops reading its upstream hands it to a drainer: the in-process pipeline is a chain of goroutines connected by unbuffered channels; a producer blocked in a send can only end when its consumer keeps receiving until the channel is closed. For every loop that ranges over a channel in the live code of the LogQL pipeline (reader/logql/logql_transpiler_v2 and the stages below it; the HTTP-side consumers follow a different protocol — they stop at an error entry, which is by construction the last thing its producer sends), each exit from the loop other than the channel being closed (break / return inside the body) " +
-		"must be dominated, inside the loop, by a call that starts a goroutine receiving from the same channel (the `go func(){ for range in {} }()` drain, directly or through a helper closure such as onErr). Otherwise the upstream stage — in the end the database scan with its open rows — stays blocked forever after a cancelled or limited request",
+		"must be dominated, inside the loop, by a call that starts a goroutine receiving from the same channel (the `go func(){ for range in {} }()` drain, directly or through a helper closure such as onErr — which must start it on every one of its paths; cancelling the request context is no substitute, the stages hand their batches over with unconditional sends). Otherwise the upstream stage — in the end the database scan with its open rows — stays blocked forever after a cancelled or limited request",
 	Run: func(c *Ctx) []Obl {
 		var obls []Obl
 		var kk keyer
